@@ -16,7 +16,7 @@ from mc.core import Out, drive
 
 FAULTS = [(-32000, "x", None), (5, "é", 0), (0, "", [1]), (-32700, "p", {"k": 1})]
 METHODS = [None, "m", "é", "", 5, ["m"]]
-PARAMS = [None, [], [1], (), (1, 2), {}, {"a": 1}, 5, "s", True, [0], [None], {"a": None}, [[]]] + [
+PARAMS = [None, [], [1], (), (1, 2), {}, {"a": 1}, 5, "s", True, 0, "", False, 0.0, [0], [None], {"a": None}, [[]]] + [
     ("FAULT", i) for i in range(len(FAULTS))
 ]
 RPCIDS = [None, "", "a", "0", 0, 0.0, 1, -1, 1.5, 2 ** 53]
